@@ -4,7 +4,9 @@ package checks
 
 import (
 	"context"
+	"errors"
 	"fmt"
+	"sync"
 	"time"
 
 	"github.com/superfly/litefs"
@@ -153,4 +155,147 @@ func runC15Lag(c *core.Case, k int) {
 	}
 	c.Count("lag_rejoined_across_recreate", 1)
 	c.Distinct(fmt.Sprintf("lag/ps%d->%d/wal%v->%v", ps1, ps2, wal1, wal2))
+}
+
+func init() {
+	addFamily("C15", func(tier string) int {
+		if tier == "thorough" {
+			return 64
+		}
+		return 6
+	}, runC15Promote, " (+ the replica that applied the drop becomes primary and the database is recreated THERE, smaller or with another page size; the former primary follows, counters promote_*)")
+}
+
+// runC15Promote: a drop replicated to a replica, then a primary change, then the
+// recreation on the new primary. What the new primary remembers of the dropped
+// database (it learnt the drop from a tombstone, not from its own unlink) must
+// not leak into the recreated one.
+func runC15Promote(c *core.Case, k int) {
+	var mu sync.Mutex
+	blocked := map[string]bool{"n1": true}
+	cl, err := cluster.New(c.Dir, []cluster.NodeOpts{{Candidate: true}, {Candidate: true}})
+	if err != nil {
+		c.Inconclusive(err.Error())
+		return
+	}
+	defer cl.Close()
+	cl.Svc.SetInject(func(node, op string) error {
+		mu.Lock()
+		defer mu.Unlock()
+		if blocked[node] && op == "acquire" {
+			return errors.New("scripted: acquire unavailable")
+		}
+		return nil
+	})
+	if err := cl.Start(0); err != nil || cl.WaitPrimary(0, 10*time.Second) == nil {
+		c.Inconclusive("primary start")
+		return
+	}
+	if err := cl.Start(1); err != nil || !cl.WaitConnected(1, 10*time.Second) {
+		c.Inconclusive("replica start")
+		return
+	}
+	A, B := cl.Nodes[0], cl.Nodes[1]
+	led := newLedger()
+	sizes := []uint32{4096, 1024, 512}
+	ps1 := sizes[k%3]
+	ps2 := ps1
+	if (k/3)%2 == 1 {
+		ps2 = sizes[(k+1)%3]
+	}
+	wal1, wal2 := k%2 == 0, (k/2)%2 == 0
+	var hist []string
+	detail := func() map[string]any {
+		return map[string]any{"history": hist, "n0": mon.PosOf(A.Node, "db").String(), "n1": mon.PosOf(B.Node, "db").String()}
+	}
+	create := func(P *cluster.CNode, ps uint32, wal bool, pages uint32, tag string) bool {
+		w, err := newWriter(P.Node, "db", ps, wal, "delete", nil, c.SubRng("w"+tag), led, 1)
+		if err != nil {
+			c.Violate("C15/writer", err.Error(), detail())
+			return false
+		}
+		defer w.close()
+		w.d.BusyRetries = 5000
+		if err := w.ensure(pages); err != nil {
+			healthViolations(c, P.Node, "create "+tag, detail())
+			if !c.Violated() {
+				c.Violate("C15/recreate-failed", fmt.Sprintf("creating the database (%s, %d pages of %d bytes, wal=%v) on %s failed: %v", tag, pages, ps, wal, P.Name, err), detail())
+			}
+			return false
+		}
+		for i := 0; i < 2; i++ {
+			if _, err := w.txn(2); err != nil {
+				healthViolations(c, P.Node, "write "+tag, detail())
+				if !c.Violated() {
+					c.Violate("C15/write-failed", err.Error(), detail())
+				}
+				return false
+			}
+		}
+		hist = append(hist, fmt.Sprintf("%s on %s: %d+ pages of %d bytes, wal=%v", tag, P.Name, pages, ps, wal))
+		return true
+	}
+	follow := func(P, R *cluster.CNode, ctx string) bool {
+		ok, _, timedOut := cl.WaitConverged(P, R, []string{"db"}, 8, 30*time.Second)
+		if healthViolations(c, R.Node, ctx, detail()) || healthViolations(c, P.Node, ctx, detail()) {
+			return false
+		}
+		if timedOut {
+			c.Inconclusive("convergence watchdog (" + ctx + ")")
+			return false
+		}
+		if !ok {
+			c.Violate("C15/recreated-db-not-replicated", fmt.Sprintf("%s: %s is at %s, the primary %s at %s", ctx, R.Name, mon.PosOf(R.Node, "db"), P.Name, mon.PosOf(P.Node, "db")), detail())
+			return false
+		}
+		res, err := mountRead(c, R.Node, "db", uint64(700+len(hist)))
+		if err != nil {
+			c.Violate("C15/replica-read-error", ctx+": "+err.Error(), detail())
+			return false
+		}
+		judgeReplicaRead(c, led, R.Name, "db", res, ctx, detail())
+		return !c.Violated()
+	}
+	big := uint32(9 + c.Rng.IntN(8))
+	if !create(A, ps1, wal1, big, "first incarnation") || !follow(A, B, "first incarnation") {
+		return
+	}
+	prev := mon.PosOf(A.Node, "db")
+	if err := A.Node.Remove("db"); err != nil {
+		healthViolations(c, A.Node, "drop", detail())
+		if !c.Violated() {
+			c.Violate("C15/drop-failed", err.Error(), detail())
+		}
+		return
+	}
+	led.put("db", mon.PosKey{TXID: prev.TXID + 1, Chk: ref.ChecksumFlag}, ref.NewImage(ps1))
+	hist = append(hist, "drop on n0")
+	if ok, _, _ := cl.WaitConverged(A, B, []string{"db"}, 8, 30*time.Second); !ok {
+		c.Inconclusive("the replica did not apply the drop")
+		return
+	}
+	// ---- primary change: n0 steps down, n1 takes over
+	mu.Lock()
+	blocked["n0"], blocked["n1"] = true, false
+	mu.Unlock()
+	A.Store.Demote()
+	if cl.WaitPrimary(1, 20*time.Second) == nil {
+		c.Inconclusive("n1 did not become primary")
+		return
+	}
+	hist = append(hist, "n1 is primary")
+	_ = cl.WaitConnected(0, 10*time.Second)
+	small := uint32(2 + c.Rng.IntN(3))
+	if !create(B, ps2, wal2, small, "second incarnation") {
+		return
+	}
+	if !follow(B, A, "after the recreation on the new primary") {
+		return
+	}
+	judgeRawChecksum(c, B.Node, "db", "new primary after recreation", detail())
+	if c.Violated() {
+		return
+	}
+	c.Count("promote_recreated_on_new_primary", 1)
+	c.Distinct(fmt.Sprintf("promote/ps%d->%d/wal%v->%v", ps1, ps2, wal1, wal2))
 }
